@@ -584,9 +584,75 @@ def run(c, facts, tier):
     c.ob("C01.lex-whole", lexfn, "lexing consumes the whole input or fails", ok, detail, witness="-true -bogus" if ok is False else None)
     c.floor("precedence levels + atom alternatives + operator words", len(levels) + len(alts) + len(spec["lex"]), 3 + 4 + 8)
 
+    if tier == "thorough":
+        engine_crosscheck(c, facts, b, g)
     # ---------------------------------------------------------------- positive control
     fx = {"t": "reptill", "l": 0, "min": 1, "max": None, "p": {"t": "ref", "l": 0, "fn": start, "targs": {}, "extra": []}, "stop": {"t": "tokset", "l": 0, "toks": ["RParen"]}}
     c.control("C01.whole", unwrap(fx["stop"])["t"] != "eof", "fixture repeat_till(1.., list, one_of(RParen)) is reported as not ending in eof")
+
+
+def engine_crosscheck(c, facts, b, g):
+    """E1 ↔ E2: per parser function, the multiset of call-form winnow combinators in the IR (own macro expansion and
+    name resolution of E1) must equal the multiset of resolved winnow callees in that function's MIR and its closures."""
+    import collections
+    import re
+
+    from .. import mir
+
+    m = mir.load(True)
+    tracked = {"alt", "cut_err", "preceded", "terminated", "delimited", "separated_pair", "repeat", "repeat_till", "separated", "take_while", "take_until", "one_of", "literal", "peek"}
+    by_owner = {}
+    for p, bd in m.bodies.items():
+        key = mir.e1_key(p, facts)
+        if key is None:
+            continue
+        cnt = by_owner.setdefault(key, collections.Counter())
+        for cl in bd["calls"]:
+            if cl["crate"] == "winnow":
+                nm = (cl["resolved"] or cl["callee"]).split("::")[-1]
+                nm = re.sub(r"<.*$", "", nm)
+                if nm in tracked and re.search(r"winnow::(combinator|token)::", cl["callee"]):
+                    cnt[nm] += 1
+    n = 0
+    for key, fn in sorted(facts.fns.items()):
+        if fn.test or fn.module[:1] != ("find_parser",):
+            continue
+        try:
+            fb = b.fn_ir(key)
+        except F.AnchorMissing:
+            continue
+        e1 = collections.Counter()
+        seen_ids = set()
+
+        def w(nd):
+            if nd.get("comb") in tracked and id(nd) not in seen_ids:
+                seen_ids.add(id(nd))
+                e1[nd["comb"]] += 1
+
+        g.walk(fb, w, follow=False)
+        if fb.get("unknown"):
+            # parser applications buried in statement chains (the leading-options pass of the inner parse function)
+            from . import c06
+
+            lp = c06.leading_pass(b, fn)
+            if lp is not None:
+                g.walk(lp, w, follow=False)
+        # parsers bound to a local name and used several times are one call in the source
+        e2 = by_owner.get(key, collections.Counter())
+        if not e1 and not e2:
+            continue
+        n += 1
+        opq = g.opaque_nodes(fb, follow=False)
+        ok = e1 == e2
+        c.ob(
+            "C01.engine-crosscheck",
+            key,
+            "IR combinators = MIR winnow callees",
+            ok if (ok or not opq) else None,
+            "E1 %s vs E2 %s%s" % (dict(e1), dict(e2), ("; unmodelled nodes in the IR: %s" % [o.get("src", "")[:40] for o in opq]) if opq else ""),
+            nontrivial=False,
+        )
+    c.floor("functions cross-checked between the two extractors", n, 20)
 
 
 def psrc_arm(arm):
